@@ -153,13 +153,9 @@ bound<Number> bound<Number>::operator/(const bound<Number> &x) const {
   } else if (is_finite() && x.is_finite()) {
     return bound<Number>(false, _n / x._n);
   } else if (is_finite() && x.is_infinite()) {
-    if (_n > 0) {
-      return x;
-    } else if (_n == 0) {
-      return *this;
-    } else {
-      return x.operator-();
-    }
+    // n / +-oo tends to 0 (it was +-oo, which made interval division
+    // drop the small quotients, e.g. [1,1] / [1,+oo] = [1,+oo])
+    return bound<Number>(0);
   } else if (is_infinite() && x.is_finite()) {
     if (x._n > 0) {
       return *this;
